@@ -507,6 +507,9 @@ func (s *c15) Apply(o kit.Op) *kit.Violation {
 		if !bytes.Equal(a.ScriptAddress(), model.Hash160(h.mod.PubKey())) {
 			return kit.V("independence:address-changed", "Address of handle %d is not HASH160 of the model's public key", o.H)
 		}
+		if !a.IsForNet(c15Nets[ni].p) {
+			return kit.V("independence:address-changed", "Address(%s) of handle %d is not an address of that network", c15Nets[ni].name, o.H)
+		}
 	case "observe-all":
 		s.final = true
 	case "usezeroed":
